@@ -81,7 +81,7 @@ Definition tfence_after (t : fence_table) (pc pc' : tpc) : fclass :=
 Definition ofence_before (t : fence_table) (pc : opc) : fclass :=
   match pc with OPushUnlock _ _ | OPopUnlock _ | OPutUnlock => f_unlock t | _ => Nothing end.
 Definition tfence_before (t : fence_table) (pc : tpc) : fclass :=
-  match pc with TUnlock _ => f_unlock t | _ => Nothing end.
+  match pc with TUnlock _ | TUnlockP => f_unlock t | _ => Nothing end.
 
 Fixpoint set_nthA {A : Type} (l : list A) (n : nat) (x : A) : list A :=
   match l, n with
